@@ -2,7 +2,7 @@
 (`vm_compute` in `coqc`, no extraction, no OCaml driver) and compared with what the extracted model
 printed for the same case.  Only case kinds whose input is a handful of numbers are translated:
 root, pos (C17), lag, ped (C01/C02), c11deal (C11), c18air (C18), c04rounds, c04lock (C04), rmw (C14),
-filename (C18), export / exportraw (C03); air (C12), rehash is too large for the kernel and is skipped."""
+filename, airreinit (C18 / C11), export / exportraw (C03), resetpoll (C14); air (C12), rehash is too large for the kernel and is skipped."""
 import os, random, subprocess, re
 
 
@@ -106,6 +106,20 @@ def translate(case, model):
             rows = [r.split(":") for r in (m[1].split(",") if len(m) > 1 else [])]
             exp = "; ".join("(%s, {| ex_payload := %s; ex_sig := %s; ex_file := %s |})" % (r[0], r[1], r[2], r[3]) for r in rows)
             return "match %s with Some out => exp_eqb (exp_sort out) [%s]%%N | None => false end" % (term, exp)
+        if k == "resetpoll" and len(f) >= 4:
+            n, kk, pp = int(f[1]), int(f[2]), int(f[3])
+            kv = dict(x.split("=", 1) for x in m[1:])
+            return ("(let w := reset_after %d %d %d %d in Nat.eqb (d_off (w_new w)) %s && Bool.eqb (replayed_all %d w) %s)"
+                    % (n, kk, pp, 4 * n + 8, kv["offset"], n, "true" if kv["replayed"] == "all" else "false"))
+        if k == "airreinit" and len(f) >= 3:
+            outer, n = f[1], int(f[2])
+            v = f[3:]
+            kinds = {"commits": "IkCommits", "deals": "IkDeals", "responses": "IkResponses"}
+            ops = "; ".join("{| ri_kind := %s; ri_round := %s; ri_ok := %s |}" % (kinds.get(v[3 * i], "IkMaster"), v[3 * i + 1], "true" if v[3 * i + 2] == "1" else "false") for i in range(n))
+            shares = m[2].split("=", 1)[1]
+            exp = "[" + "; ".join(x for x in shares.split(",") if x) + "]"
+            return ("(let r := handle_reinit %s fresh_rmach [%s] in Bool.eqb (snd r) %s && lneqb (nat_sort (rm_shares (fst r))) %s)"
+                    % (outer, ops, "true" if m[1] == "processed" else "false", exp))
         if k == "rmw" and len(f) == 2:
             sc = "[" + "; ".join("true" if c == "A" else "false" for c in f[1]) + "]"
             pend = m[1].split("=", 1)[1]
@@ -118,8 +132,11 @@ def translate(case, model):
 
 HEADER = """From Coq Require Import String List NArith ZArith Bool.
 Require Import Lib.GoStr Ssz.Rotation Crypto.Zr Crypto.DealCheck Air.Reject Air.Terms Air.Lock Node.Serial.
-Require Import Fsm.EngineDefs Node.Types Node.Process Node.Export Node.FileName.
+Require Import Fsm.EngineDefs Node.Types Node.Process Node.Export Node.FileName Node.ResetPoll Air.Reinit.
 Import ListNotations.
+Fixpoint nat_insert (x : nat) (l : list nat) : list nat :=
+  match l with [] => [x] | y :: r => if Nat.leb x y then x :: l else y :: nat_insert x r end.
+Definition nat_sort (l : list nat) : list nat := fold_right nat_insert [] l.
 Fixpoint exp_insert (x : N * exported) (l : list (N * exported)) : list (N * exported) :=
   match l with [] => [x] | y :: r => if N.leb (fst x) (fst y) then x :: l else y :: exp_insert x r end.
 Definition exp_sort (l : list (N * exported)) : list (N * exported) := fold_right exp_insert [] l.
@@ -145,7 +162,16 @@ def run(coq_dir, cases_path, model_path, work, n=120, seed=1, timeout=900):
     random.Random(seed).shuffle(idx)
     # SSZ roots cost seconds each in the kernel: at most 6 of them
     roots = [i for i in idx if cases[i].startswith("root ")][:6]
-    others = [i for i in idx if not cases[i].startswith("root ")][:n]
+    # every translatable kind is represented: round-robin over the kinds, in shuffled order
+    bykind = {}
+    for i in idx:
+        if not cases[i].startswith("root "):
+            bykind.setdefault(cases[i].split()[0], []).append(i)
+    others = []
+    while len(others) < n and any(bykind.values()):
+        for kk in sorted(bykind):
+            if bykind[kk] and len(others) < n:
+                others.append(bykind[kk].pop(0))
     idx = roots + others
     if not idx:
         return {"evaluated": 0, "agree": 0, "skipped": "no translatable case kinds"}
@@ -160,5 +186,8 @@ def run(coq_dir, cases_path, model_path, work, n=120, seed=1, timeout=900):
         return {"evaluated": len(idx), "agree": 0, "error": out[-600:]}
     vals = re.findall(r"\b(true|false)\b", out.split("result =", 1)[1].split(":", 1)[0]) if "result =" in out else []
     bad = [cases[idx[j]] for j, v in enumerate(vals) if v == "false"]
-    return {"evaluated": len(idx), "agree": len(vals) - len(bad), "disagreements": bad[:5],
+    kinds = {}
+    for i in idx:
+        kinds[cases[i].split()[0]] = kinds.get(cases[i].split()[0], 0) + 1
+    return {"evaluated": len(idx), "agree": len(vals) - len(bad), "disagreements": bad[:5], "kinds": kinds,
             "how": "Definition checks := [...]; Eval vm_compute in checks, by coqc on the compiled development (no extraction, no OCaml)"}
